@@ -270,3 +270,15 @@ Section Graph.
     Qed.
   End Fresh.
 End Graph.
+
+(* if no package-body binding shadows a submodule file, `from pkg import sub` yields the submodule
+   under every import history *)
+Lemma from_import_history_independent_gen : forall bindings files,
+  no_shadow_b bindings files = true ->
+  forall p n sub, In (p, n, sub) files ->
+  forall after, from_import (lookup_binding bindings p n) after sub = sub.
+Proof.
+  intros bindings files H p n sub Hin after. unfold no_shadow_b in H. rewrite forallb_forall in H.
+  specialize (H _ Hin). simpl in H. unfold from_import. destruct after; auto.
+  destruct (lookup_binding bindings p n) as [t|]; auto. apply N.eqb_eq in H. exact H.
+Qed.
